@@ -134,6 +134,7 @@ class Executor(object):
         self.cur_module = None
         self.locals_stack = []
         self.pure = False
+        self.lemmas_used = set()
 
     # ------------------------------------------------------------ decisions
     def decide(self, k, what=''):
@@ -291,6 +292,11 @@ class Executor(object):
         raise OutOfSubset('cannot allocate empty %r' % (pt,))
 
     def coerce(self, v, pt, st=None):
+        if v.pt.kind == 'pylistlit' and pt.kind == 'list':
+            if st is None:
+                raise OutOfSubset('list literal of tuples needs a typed destination')
+            elems = [self.coerce(e, pt.args[0], st) for e in v.py]
+            return self.new_list(st, pt.args[0], Concat(*[Unit(e.t) for e in elems]))
         if v.pt.kind in ('emptylist', 'emptydict', 'emptyset') and pt.is_ref():
             want = {'emptylist': ('list',), 'emptydict': ('dict', 'ddict'), 'emptyset': ('set',)}[v.pt.kind]
             if pt.kind in want:
@@ -431,6 +437,12 @@ class Executor(object):
         for cl in contract.assumes:
             self.assumptions_used.add('%s: %s' % (contract.name, cl.label))
             self.assume(st, self.ceval(cl.expr, st, entry, None))
+        for ln in contract.uses:
+            from . import lemmas
+            if ln not in self.reg.lemmas:
+                raise ContractMismatch('unknown lemma %s' % ln)
+            st.pc.append(lemmas.statement(self, self.reg.lemmas[ln]))
+            self.lemmas_used.add(ln)
         entry.pc = list(st.pc)
         result = NONE
         try:
@@ -511,6 +523,8 @@ class Executor(object):
             if f == 'field':
                 v = self.cvalue(m.args[0], entry, entry, None)
                 return ('field', (v, ast.literal_eval(m.args[1])))
+            if f == 'family':
+                return ('family', ast.literal_eval(m.args[0]))
             if f == 'anything':
                 return ('any', None)
             if f == 'fresh_only':
@@ -525,6 +539,10 @@ class Executor(object):
             if kind == 'any':
                 return TRUE
             if kind == 'none':
+                continue
+            if kind == 'family':
+                if self._family_array(name, v):
+                    return TRUE
                 continue
             if kind == 'field':
                 obj, fname = v
@@ -555,6 +573,15 @@ class Executor(object):
                 elif name == '$wowned':
                     out.append(TRUE)
         return Or(*out) if out else FALSE
+
+    def _family_array(self, name, fam):
+        """arrays belonging to an object family: its classes' fields, plus (joiner) the JKey-keyed dicts and match lists"""
+        if name.startswith('F:'):
+            cls = name[2:].rsplit('.', 1)[0]
+            return self._family(cls) == fam
+        if fam == 'joiner':
+            return 'JKey' in name or name == 'L:Tup_Int_Int_Int'
+        return False
 
     def _family(self, cls):
         seen = set()
@@ -1034,6 +1061,9 @@ class Executor(object):
                     continue
                 if f == 'fresh_only':
                     continue
+                if f == 'family':
+                    pats.add(('family', ast.literal_eval(m.args[0])))
+                    continue
                 if f == 'field':
                     t = static_type(m.args[0])
                     if t is not None and t.kind == 'obj':
@@ -1065,7 +1095,9 @@ class Executor(object):
         for p in pats:
             if p == '*':
                 return set(n for n in names if n != '$srcs' and not n.endswith('.level') and not n.endswith('.sorted_iface'))
-            if isinstance(p, tuple) and p[0] == 'arr':
+            if isinstance(p, tuple) and p[0] == 'family':
+                out |= set(n for n in names if self._family_array(n, p[1]))
+            elif isinstance(p, tuple) and p[0] == 'arr':
                 out.add(p[1])
             elif p == 'held':
                 out.add('$held')
@@ -1348,7 +1380,9 @@ class Executor(object):
         if ept.kind == 'none':
             ept = TCell
         if ept.kind in ('pytuple',):
-            raise OutOfSubset('list of python tuples at line %d' % n.lineno)
+            if any(tag != '1' for tag, _ in parts):
+                raise OutOfSubset('starred list of python tuples at line %d' % n.lineno)
+            return SV(PT('pylistlit'), py=tuple(p for _, p in parts))
         segs = []
         for tag, p in parts:
             if tag == '1':
@@ -1515,6 +1549,10 @@ class Executor(object):
         seq = self.list_content(st, a)
         if not (seq.op == 'seq.unit'):
             raise OutOfSubset('list repeat of non-singleton')
+        if a.pt.args[0].kind == 'cell':
+            from . import speclib
+            r = speclib.spec_app(self, 'rep_cells', [SV(TCell, seq.args[0]), n], None)
+            return self.new_list(st, TCell, r.t)
         s = fresh('rep', seq.sort)
         i = BVar('i', INT)
         st.pc.append(Eq(Len(s), Ite(Ge(n.t, IntC(0)), n.t, IntC(0))))
@@ -1612,7 +1650,7 @@ class Executor(object):
         if a.pt == b.pt:
             if ka == 'cell':
                 return ptypes.cell_eq(a.t, b.t)
-            if ka in ('int', 'bool', 'str', 'float', 'key', 'seq', 'tuple'):
+            if ka in ('int', 'bool', 'str', 'float', 'key', 'seq', 'tuple', 'jkey', 'map'):
                 return Eq(a.t, b.t)
             if ka == 'opt' and not a.pt.args[0].is_ref():
                 return Eq(a.t, b.t)
